@@ -39,7 +39,7 @@ Verdict(r) ==
     ELSE
     LET wt == IF r.enc_exc = "none" THEN WireToks(r.bytes) ELSE <<>>
         n == Len(wt)
-        seqOK == IF r.mode = "alloc" THEN r.hdr34 = r.nout_before /\ r.nout_after = r.nout_before + 1
+        seqOK == IF r.mode \in {"alloc", "pdN", "pdNc"} THEN r.hdr34 = r.nout_before /\ r.nout_after = r.nout_before + 1
                  ELSE r.hdr34 = r.carried /\ r.nout_after = r.nout_before
     IN [id |-> r.id, wf |-> TRUE,
         fails |-> Fc("M_roundtrip_model", Parse(FlattenT(r.tree), Table) = r.tree)
